@@ -63,9 +63,12 @@ extern int mpt_stream_dispatch(MPT_STRUCT(stream) *srm, int (*cmd)(void *, const
 	else {
 		ret &= MPT_EVENTFLAG(Flags);
 	}
-	/* further message on queue */
-	if (mpt_queue_recv(&srm->_rd) > 0) {
-		ret |= MPT_EVENTFLAG(Retry);
+	/* further message on queue (or decoder needs space the next call provides) */
+	{
+		int more = mpt_queue_recv(&srm->_rd);
+		if (more > 0 || more == MPT_ERROR(MissingBuffer)) {
+			ret |= MPT_EVENTFLAG(Retry);
+		}
 	}
 	return ret;
 }
